@@ -326,6 +326,11 @@ func mixCases(prop string) []Case {
 	add([]string{sendFixed("USD", "{ @a @b }", "{ max %C to @a remaining to @b }")}, nil)
 	add([]string{sendAll("USD", "{ $x @a @b }", "$x")}, xv)
 	add([]string{sendFixed("USD", "@world", "$x"), sendFixed("USD", "$x", "@d")}, xv)
+	// @world reached through a variable (fixed-amount sends only: under send-all it is a value the checker cannot see)
+	wv := map[string][2]string{"w": {"account", "acc:world"}}
+	add([]string{sendFixed("USD", "{ @a $w }", "@d")}, wv)
+	add([]string{sendFixed("USD", "{ @a $w allowing overdraft up to %K @b }", "{ max %C to @d remaining to $w }")}, wv)
+	add([]string{sendFixed("USD", "max %C from { $w @a }", "@d"), sendFixed("USD", "@a", "$w"), sendFixed("USD", "{ @a @b }", "@e")}, wv)
 	// deep nesting
 	add([]string{sendFixed("USD", "{ 1/2 from { max %C from { @a @b } @c } remaining from @a }", "@d")}, nil)
 	add([]string{sendFixed("USD", "max %C from { @a allowing overdraft up to %K max %C from { @b @a } }", "{ max %C to { 1/2 to @d 1/2 kept } remaining to @e }")}, nil)
